@@ -30,6 +30,16 @@ impl Driven for D {
          _ => panic!("verif harness: unknown relation {}", rel),
       }
    }
+   fn clear(&mut self, rel: &str) {
+      match rel {
+         "e" => { self.0.e = Default::default(); },
+         "c0" => { self.0.c0 = Default::default(); },
+         "c1" => { self.0.c1 = Default::default(); },
+         "c01" => { self.0.c01 = Default::default(); },
+         "both" => { self.0.both = Default::default(); },
+         _ => panic!("verif harness: unknown relation {}", rel),
+      }
+   }
    fn run(&mut self) { self.0.run(); }
    fn dump(&self) -> Value {
       let mut m: Vec<(String, Value)> = vec![];
